@@ -90,7 +90,8 @@ def dropped_errors(fn, var=None, mode="dead"):
                         state = "read"
                         break
                     if ev2[0] == "def":
-                        state = ("kill", ev2[1])
+                        # an error replaced by another error constant is still an error
+                        state = "read" if (isinstance(ev2[2], int) and ev2[2] != 0) else ("kill", ev2[1])
                         break
                 if state is None:
                     for i2 in range(i + 1, len(events[bid])):
@@ -99,7 +100,7 @@ def dropped_errors(fn, var=None, mode="dead"):
                                 state = "read"
                                 break
                             if ev2[0] == "def":
-                                state = ("kill", ev2[1])
+                                state = "read" if (isinstance(ev2[2], int) and ev2[2] != 0) else ("kill", ev2[1])
                                 break
                         if state is not None:
                             break
@@ -126,8 +127,11 @@ def dropped_errors(fn, var=None, mode="dead"):
                                 st = "read"
                                 break
                             if ev2[0] == "def":
-                                st = "kill"
-                                kill_node = kill_node or ev2[1]
+                                if isinstance(ev2[2], int) and ev2[2] != 0:
+                                    st = "read"
+                                else:
+                                    st = "kill"
+                                    kill_node = kill_node or ev2[1]
                                 break
                         if st:
                             break
